@@ -150,7 +150,9 @@ const lspType = "application/vscode-jsonrpc; charset=utf-8"
 
 func c11Kinds() []string {
 	return []string{"split:10", "split:0", "split:30", "split:128", "split:255", "split:195",
-		"hdr:0:-", "hdr:0:" + hxs("application/json"), "hdr:1:" + hxs("text/x"), "hdr:1:" + hxs(lspType), "raw"}
+		"hdr:0:-", "hdr:0:" + hxs("application/json"), "hdr:1:" + hxs("text/x"), "hdr:1:" + hxs(lspType), "raw",
+		// a media type is compared as written, upper-case letters and parameters included
+		"hdr:0:" + hxs("Application/X-Mixed; Charset=UTF-8"), "hdr:1:" + hxs("Text/X-Case")}
 }
 
 func randBytes(rng *rand.Rand, n int, exclude int) []byte {
@@ -670,7 +672,7 @@ func TestC12(t *testing.T) {
 	if _, ok := replayInput(); !ok {
 		c12ServerAtEOF(res, rng)
 	}
-	kinds := []string{"split:10", "split:255", "split:195", "hdr:0:-", "hdr:1:-", "hdr:0:" + hxs("text/x"), "hdr:1:" + hxs("text/x"), "hdr:1:" + hxs(lspType), "raw"}
+	kinds := []string{"split:10", "split:255", "split:195", "hdr:0:-", "hdr:1:-", "hdr:0:" + hxs("Text/X-Case"), "hdr:1:" + hxs("Text/X-Case"), "hdr:0:" + hxs("text/x"), "hdr:1:" + hxs("text/x"), "hdr:1:" + hxs(lspType), "raw"}
 	if in, ok := replayInput(); ok {
 		var r struct{ Kind, Stream string }
 		if json.Unmarshal(in, &r) == nil && r.Kind != "" {
@@ -688,6 +690,12 @@ func TestC12(t *testing.T) {
 				cases = append(cases, tc{kind, []byte("abc\ndef")}, tc{kind, []byte("abc\xffde\xc3\xbf")}, tc{kind, []byte("\xc3\xbf")})
 			}
 			if kindClass(kind) == "hdr" {
+				// the configured media type spelled exactly, lower-cased and upper-cased
+				if mt, _ := hexDecode(strings.Split(kind, ":")[2]); len(mt) > 0 {
+					for _, sp := range []string{string(mt), strings.ToLower(string(mt)), strings.ToUpper(string(mt))} {
+						cases = append(cases, tc{kind, []byte("Content-Type: " + sp + "\r\nContent-Length: 3\r\n\r\nabc")})
+					}
+				}
 				for _, l := range c12Lengths {
 					cases = append(cases, tc{kind, []byte("Content-Length: " + l + "\r\n\r\nxyz")})
 					cases = append(cases, tc{kind, []byte("Content-Type: text/x\r\ncontent-length:" + l + "\n\nxyzw")})
